@@ -116,6 +116,27 @@ func $NC(a int) (res int) {
 	}
 	return res*1000 + v
 }`, entries: []*Entry{callEntry("$NC", 1, nil)}},
+	// `n, m := ..` where n is already declared in the same block: n is ASSIGNED, only m is new (after a yield the
+	// statement sits in a nested closure, where a naive translation declares a second n)
+	{name: "mixed-define-reuses-variable-redeclared-after-yield", decls: baseGen + `
+$GEN{$NH(a int)}{int}{
+	n := 0
+	get := func() int { return n }
+	$YIELD{1}
+	n, m := 5+a, 6
+	$YIELD{get() + m}
+	$YIELD{n}
+	for i := 0; i < 2; i++ {
+		s, err := i, a
+		$YIELD{s + err}
+		t, err := s+1, err+10
+		$YIELD{t + err}
+		if i == 1 {
+			$YIELD{get() + err}
+		}
+	}
+	$RET
+}`, entries: []*Entry{drive("$NH", "int", 1, nil)}},
 	// the body declares the loop variable again TOGETHER WITH a new name (legal next to the first declaration, so a
 	// lowering that puts both into one scope still builds) after closures captured the range variable
 	{name: "range-define-redeclared-with-new-name-after-capture", decls: baseGen + `
@@ -872,6 +893,29 @@ $GEN{$NG(a int)}{int}{
 	}
 	$RET
 }`, entries: []*Entry{drive("$NG", "int", 1, [][]int{{0}})}},
+	// a parameter / local that shadows a package-level constant of the same name is yielded as the first statement of
+	// a thunk (head of a loop body, right after a yielding statement) and changes across suspensions
+	{name: "yield-of-identifier-shadowing-a-constant", decls: `
+const $NLimit, $NAcc = 100, 200
+
+$GEN{$NG($NLimit int)}{int}{
+	for $NLimit > 0 {
+		$YIELD{$NLimit}
+		$NLimit--
+	}
+	$NAcc := 1
+	grow := func() { $NAcc *= 2 }
+	for i := 0; i < 3; i++ {
+		$YIELD{$NAcc}
+		grow()
+	}
+	if $NLimit == 0 {
+		$YIELD{-1}
+		$NAcc = 42
+	}
+	$YIELD{$NAcc}
+	$RET
+}`, entries: []*Entry{drive("$NG", "int", 1, nil)}},
 	{name: "yield-literal-variable-constant", decls: `
 const $NK = 7
 
